@@ -22,10 +22,15 @@ RULE = ("scenarios from the grammar in harness/scen.py with 1-3 connectors of ei
         "distinct = distinct (seed, index)")
 ASSUMPTIONS = ["equality of the float series is exact (same operations in the same order)",
                "the delegation sentence is judged only for connectors without number_cs (prioritisation changes who "
-               "is charged, by design)"]
-UNPROVED = ["that a connector's result equals a stand-alone balanced / greedy RUN over many steps is decided by the "
-            "implementation-vs-implementation stream; the theorems state it per step (the step at a depot / opportunity "
-            "connector is the sub-strategy's step model on that connector's virtual world; other connectors untouched)"]
+               "is charged, by design)",
+               "iterated model (run_distributed, harness/c14run.py): compared over standing periods of the real run only "
+               "(windows of 2-12 consecutive steps between which no vehicle event / battery loss changed a vehicle's station, "
+               "departure time, desired SoC, SoC or a battery's SoC; at most 2 windows per run, charging windows first)"]
+UNPROVED = ["the run-level theorems (C14_distributed_run_is_delegated, C14_distributed_run_independent: the distributed run "
+            "projected to a connector IS the stand-alone balanced / greedy run, at every step) take what the base step hands to "
+            "the strategy per step (connectors after event processing, per-vehicle effect of the vehicle events) as data under "
+            "premises; that the real Scenario.run composes that way is decided by the iterated-model stream (run_distributed) on "
+            "standing periods and by the implementation-vs-implementation stream for runs with arrivals / departures"]
 EPS = 1e-5
 
 
@@ -119,12 +124,18 @@ def record_prioritisation(full):
         import tie_rule
         steptie._guard(c10)
         spec_ties = [tie_rule.tie({"strategy": s}) for s in ("greedy", "balanced")]
+        import c14run
         with contextlib.ExitStack() as es:
             for t in spec_ties:
                 es.enter_context(t)
+            recs = es.enter_context(c14run.recording())
             r, tl, ti = steptie.run_with_tie(full, lambda: scen.run_real(full, timeout_s=90))
         lines += tl
         impl += ti
+        # … and the ITERATED model (`run_distributed`: the state is carried by the model) over standing periods of the run
+        wl, wi, r["iterated_stats"] = c14run.windows(recs, tl, ti, no_generation=not full.get("with_gen"))
+        lines += wl
+        impl += wi
         if not (isinstance(r, dict) and r.get("timeout")):
             for t in spec_ties:
                 lines += [c10.spec_line(x) for x in t.lines]
@@ -203,8 +214,11 @@ def eval_case(case):
                     viol.append(("delegation", "C14:%s_connector_differs_from_%s" % (stype, ref["strategy"]),
                                  "%s %s" % (gid, d[:250])))
             stats.append(stype)
+    it = r.get("iterated_stats", [])
     return {"lines": lines, "impl": impl, "violations": viol, "nontrivial": charged or bool(r.get("step_i")),
-            "stats": stats, "replay_case": full, "num": {"rankings_compared": len(lines)}}
+            "stats": stats + it, "replay_case": full,
+            "num": {"rankings_compared": len(lines), "iterated_windows": it.count("iterated_window"),
+                    "iterated_steps": it.count("iterated_step")}}
 
 
 def compare(case, impl, model):
